@@ -3,6 +3,7 @@ package ir
 import (
 	"fmt"
 	"go/ast"
+	"go/constant"
 	"go/token"
 	"go/types"
 	"reflect"
@@ -189,6 +190,32 @@ func (d *detemper) rewriteLists(root ast.Node) bool {
 
 func (d *detemper) list(list []ast.Stmt) ([]ast.Stmt, bool) {
 	changed := false
+	// `a, b := x, y` with effect-free right-hand sides defining fresh variables is `a := x; b := y`
+	for i := 0; i < len(list); i++ {
+		as, ok := list[i].(*ast.AssignStmt)
+		if !ok || as.Tok != token.DEFINE || len(as.Lhs) < 2 || len(as.Lhs) != len(as.Rhs) {
+			continue
+		}
+		split := true
+		for j := range as.Lhs {
+			id, isID := as.Lhs[j].(*ast.Ident)
+			if !isID || (id.Name != "_" && d.info.Defs[id] == nil) || !isPure(d.info, as.Rhs[j]) {
+				split = false
+			}
+		}
+		if !split {
+			continue
+		}
+		var parts []ast.Stmt
+		for j := range as.Lhs {
+			if as.Lhs[j].(*ast.Ident).Name == "_" {
+				continue // an effect-free value assigned to the blank identifier
+			}
+			parts = append(parts, &ast.AssignStmt{Lhs: []ast.Expr{as.Lhs[j]}, TokPos: as.TokPos, Tok: token.DEFINE, Rhs: []ast.Expr{as.Rhs[j]}})
+		}
+		list = append(list[:i:i], append(parts, list[i+1:]...)...)
+		return list, true
+	}
 	for i := 0; i < len(list); i++ {
 		v, e := d.tempDef(list[i])
 		if v == nil {
@@ -197,13 +224,14 @@ func (d *detemper) list(list []ast.Stmt) ([]ast.Stmt, bool) {
 		uses := d.uses[v]
 		ok := false
 		switch {
-		case len(uses) == 1 && i+1 < len(list):
-			ok = d.substSingle(list[i+1], uses[0], e)
-		case len(uses) >= 2 && d.stablePath(e):
+		case d.stablePath(e):
 			for _, u := range uses {
 				d.replace(d.body, u, d.copyExpr(e, u.Pos()))
 			}
+			simplifyAddrDeref(d.info, d.body)
 			ok = true
+		case len(uses) == 1 && i+1 < len(list):
+			ok = d.substSingle(list[i+1], uses[0], e)
 		}
 		if ok {
 			list = append(list[:i:i], list[i+1:]...)
@@ -242,8 +270,11 @@ func (d *detemper) tempDef(s ast.Stmt) (*types.Var, ast.Expr) {
 		return nil, nil
 	}
 	v, _ := d.info.Defs[id].(*types.Var)
-	if v == nil || d.writes[v] > 0 || d.captured[v] || len(d.uses[v]) == 0 {
+	if v == nil || d.writes[v] > 0 || len(d.uses[v]) == 0 {
 		return nil, nil
+	}
+	if d.captured[v] && !d.stablePath(e) {
+		return nil, nil // a closure reads it later: only a value that can never change may be put in its place
 	}
 	if tv, ok := d.info.Types[e]; ok && tv.Value != nil {
 		return nil, nil // constants keep their names
@@ -263,6 +294,15 @@ func (d *detemper) tempDef(s ast.Stmt) (*types.Var, ast.Expr) {
 
 // stablePath: x.f.g without indirection, rooted in a local variable that is never written (again).
 func (d *detemper) stablePath(e ast.Expr) bool {
+	// the address of a local variable never changes
+	if u, ok := ast.Unparen(e).(*ast.UnaryExpr); ok && u.Op == token.AND {
+		if id, ok := ast.Unparen(u.X).(*ast.Ident); ok {
+			if o, ok := d.obj(id).(*types.Var); ok && !o.IsField() && o.Pkg() != nil && o.Parent() != o.Pkg().Scope() {
+				return true
+			}
+		}
+		return false
+	}
 	n := 0
 	for {
 		switch t := ast.Unparen(e).(type) {
@@ -281,7 +321,8 @@ func (d *detemper) stablePath(e ast.Expr) bool {
 			if !ok || o.IsField() || o.Pkg() == nil || o.Parent() == o.Pkg().Scope() {
 				return false
 			}
-			return n > 0 && d.writes[o] == 0 && !d.captured[o]
+			// (n == 0: a plain rename `v := w` of a variable that is never written again)
+			return d.writes[o] == 0 && !d.captured[o]
 		default:
 			return false
 		}
@@ -497,6 +538,8 @@ func containsEffect(info *types.Info, n ast.Node) bool {
 }
 
 var exprIface = reflect.TypeOf((*ast.Expr)(nil)).Elem()
+
+var constantFalse = constant.MakeBool(false)
 
 // replaceChild replaces old by repl where it is a direct child of parent (in an Expr-typed field or slice element).
 func replaceChild(parent ast.Node, old *ast.Ident, repl ast.Expr) bool {
@@ -1261,4 +1304,345 @@ func (p *Prog) pkgOf(info *types.Info) *types.Package {
 		}
 	}
 	return nil
+}
+
+// Aggregates. A local struct (or a pointer to a struct literal created on the
+// spot) that is only ever used field by field is a bundle of independent local
+// variables: `f := &funded{txn: &t}; …; f.broadcast = true; …; if f.broadcast`
+// is `f_txn := &t; var f_broadcast bool; …; f_broadcast = true; …`. sroa replaces
+// such a variable by one variable per field (in place), which lets the flag
+// pruning, the temporaries pass and the rules see through "group the values
+// that travel together in a small struct" refactorings. The variable must be
+// defined by composite literals / zero declarations only, and every other use
+// must be a field selection (no whole-value use, no address of the variable, no
+// method call that was not expanded).
+func (p *Prog) sroa(info *types.Info, body *ast.BlockStmt) bool {
+	type cand struct {
+		obj    *types.Var
+		st     *types.Struct
+		ok     bool
+		fields map[string]*types.Var
+	}
+	cands := map[types.Object]*cand{}
+	structOf := func(t types.Type) *types.Struct {
+		if pt, ok := t.Underlying().(*types.Pointer); ok {
+			t = pt.Elem()
+		}
+		s, _ := t.Underlying().(*types.Struct)
+		return s
+	}
+	litOf := func(e ast.Expr) *ast.CompositeLit {
+		e = ast.Unparen(e)
+		if u, ok := e.(*ast.UnaryExpr); ok && u.Op == token.AND {
+			e = ast.Unparen(u.X)
+		}
+		cl, _ := e.(*ast.CompositeLit)
+		return cl
+	}
+	obj := func(e ast.Expr) types.Object {
+		id, ok := ast.Unparen(e).(*ast.Ident)
+		if !ok {
+			return nil
+		}
+		if o := info.Uses[id]; o != nil {
+			return o
+		}
+		return info.Defs[id]
+	}
+	consider := func(id *ast.Ident, rhs ast.Expr, zeroDecl bool) {
+		v, ok := info.Defs[id].(*types.Var)
+		if !ok || v.IsField() {
+			return
+		}
+		st := structOf(v.Type())
+		if st == nil {
+			return
+		}
+		if !zeroDecl && litOf(rhs) == nil {
+			return
+		}
+		if _, isPtr := v.Type().Underlying().(*types.Pointer); isPtr && zeroDecl {
+			return // a nil pointer is not an aggregate
+		}
+		if c := cands[v]; c == nil {
+			cands[v] = &cand{obj: v, st: st, ok: true, fields: map[string]*types.Var{}}
+		}
+	}
+	// pass 1: definitions
+	ast.Inspect(body, func(n ast.Node) bool {
+		switch t := n.(type) {
+		case *ast.AssignStmt:
+			if t.Tok == token.DEFINE && len(t.Lhs) == len(t.Rhs) {
+				for i, l := range t.Lhs {
+					if id, ok := l.(*ast.Ident); ok && info.Defs[id] != nil {
+						consider(id, t.Rhs[i], false)
+					}
+				}
+			}
+		case *ast.ValueSpec:
+			for i, nm := range t.Names {
+				if len(t.Values) == 0 {
+					consider(nm, nil, true)
+				} else if len(t.Values) == len(t.Names) {
+					consider(nm, t.Values[i], false)
+				}
+			}
+		}
+		return true
+	})
+	if len(cands) == 0 {
+		return false
+	}
+	// pass 2: every use must be a definition site, a whole assignment from a literal, or the base of a field selection
+	allowed := map[*ast.Ident]bool{}
+	ast.Inspect(body, func(n ast.Node) bool {
+		switch t := n.(type) {
+		case *ast.SelectorExpr:
+			if id, ok := ast.Unparen(t.X).(*ast.Ident); ok {
+				if c := cands[obj(id)]; c != nil {
+					if s := info.Selections[t]; s != nil && s.Kind() == types.FieldVal && len(s.Index()) == 1 {
+						allowed[id] = true
+					}
+				}
+			}
+		case *ast.AssignStmt:
+			if len(t.Lhs) == len(t.Rhs) {
+				for i, l := range t.Lhs {
+					if id, ok := l.(*ast.Ident); ok && cands[obj(id)] != nil {
+						if litOf(t.Rhs[i]) != nil && (t.Tok == token.DEFINE || t.Tok == token.ASSIGN) {
+							allowed[id] = true
+						}
+					}
+				}
+			}
+		case *ast.ValueSpec:
+			for _, nm := range t.Names {
+				if cands[info.Defs[nm]] != nil {
+					allowed[nm] = true
+				}
+			}
+		}
+		return true
+	})
+	ast.Inspect(body, func(n ast.Node) bool {
+		if id, ok := n.(*ast.Ident); ok {
+			if c := cands[obj(id)]; c != nil && !allowed[id] {
+				c.ok = false
+			}
+		}
+		return true
+	})
+	// literals must be keyed (or empty)
+	ast.Inspect(body, func(n ast.Node) bool {
+		check := func(l, r ast.Expr) {
+			c := cands[obj(l)]
+			if c == nil || r == nil {
+				return
+			}
+			if cl := litOf(r); cl != nil {
+				for _, el := range cl.Elts {
+					if _, keyed := el.(*ast.KeyValueExpr); !keyed {
+						if len(cl.Elts) != c.st.NumFields() {
+							c.ok = false
+						}
+					}
+				}
+			}
+		}
+		switch t := n.(type) {
+		case *ast.AssignStmt:
+			if len(t.Lhs) == len(t.Rhs) {
+				for i := range t.Lhs {
+					check(t.Lhs[i], t.Rhs[i])
+				}
+			} else {
+				for _, l := range t.Lhs {
+					if c := cands[obj(l)]; c != nil {
+						c.ok = false
+					}
+				}
+			}
+		case *ast.ValueSpec:
+			if len(t.Values) == len(t.Names) {
+				for i := range t.Names {
+					check(t.Names[i], t.Values[i])
+				}
+			}
+		}
+		return true
+	})
+	any := false
+	for _, c := range cands {
+		if c.ok {
+			any = true
+		}
+	}
+	if !any {
+		return false
+	}
+	fieldVar := func(c *cand, f *types.Var, pos token.Pos) *types.Var {
+		if v, ok := c.fields[f.Name()]; ok {
+			return v
+		}
+		v := types.NewVar(pos, c.obj.Pkg(), c.obj.Name()+"_"+f.Name(), f.Type())
+		c.fields[f.Name()] = v
+		return v
+	}
+	// rewrite field selections
+	var rewriteExprs func(n ast.Node)
+	rewriteExprs = func(n ast.Node) {
+		ast.Inspect(n, func(m ast.Node) bool {
+			sel, ok := m.(*ast.SelectorExpr)
+			if !ok {
+				return true
+			}
+			id, ok := ast.Unparen(sel.X).(*ast.Ident)
+			if !ok {
+				return true
+			}
+			c := cands[obj(id)]
+			if c == nil || !c.ok {
+				return true
+			}
+			s := info.Selections[sel]
+			if s == nil || s.Kind() != types.FieldVal {
+				return true
+			}
+			fv := fieldVar(c, s.Obj().(*types.Var), c.obj.Pos())
+			use := &ast.Ident{NamePos: sel.Pos(), Name: fv.Name()}
+			info.Uses[use] = fv
+			if tv, ok := info.Types[sel]; ok {
+				info.Types[use] = tv
+			}
+			replaceExpr(body, sel, use)
+			return false
+		})
+	}
+	rewriteExprs(body)
+	// rewrite definitions / whole assignments into per-field statements
+	expand := func(c *cand, lit *ast.CompositeLit, at token.Pos, define bool) []ast.Stmt {
+		given := map[string]ast.Expr{}
+		if lit != nil {
+			for i, el := range lit.Elts {
+				if kv, ok := el.(*ast.KeyValueExpr); ok {
+					if k, ok := kv.Key.(*ast.Ident); ok {
+						given[k.Name] = kv.Value
+					}
+				} else {
+					given[c.st.Field(i).Name()] = el
+				}
+			}
+		}
+		var out []ast.Stmt
+		for i := 0; i < c.st.NumFields(); i++ {
+			f := c.st.Field(i)
+			fv, used := c.fields[f.Name()]
+			val := given[f.Name()]
+			if !used {
+				if val != nil && containsEffect(info, val) {
+					out = append(out, &ast.AssignStmt{Lhs: []ast.Expr{&ast.Ident{NamePos: at, Name: "_"}}, TokPos: at, Tok: token.ASSIGN, Rhs: []ast.Expr{val}})
+				}
+				continue
+			}
+			id := &ast.Ident{NamePos: at, Name: fv.Name()}
+			switch {
+			case define && val != nil:
+				info.Defs[id] = fv
+				out = append(out, &ast.AssignStmt{Lhs: []ast.Expr{id}, TokPos: at, Tok: token.DEFINE, Rhs: []ast.Expr{val}})
+			case define:
+				info.Defs[id] = fv
+				out = append(out, &ast.DeclStmt{Decl: &ast.GenDecl{TokPos: at, Tok: token.VAR, Specs: []ast.Spec{&ast.ValueSpec{Names: []*ast.Ident{id}}}}})
+			case val != nil:
+				info.Uses[id] = fv
+				out = append(out, &ast.AssignStmt{Lhs: []ast.Expr{id}, TokPos: at, Tok: token.ASSIGN, Rhs: []ast.Expr{val}})
+			default:
+				// whole assignment resets the field to its zero value: not expressible without a typed zero; give up on precision
+				info.Uses[id] = fv
+				zero := &ast.CompositeLit{Lbrace: at, Rbrace: at}
+				info.Types[zero] = types.TypeAndValue{Type: f.Type()}
+				if b, isBasic := f.Type().Underlying().(*types.Basic); isBasic && b.Kind() == types.Bool {
+					fid := &ast.Ident{NamePos: at, Name: "false"}
+					info.Uses[fid] = types.Universe.Lookup("false")
+					info.Types[fid] = types.TypeAndValue{Type: types.Typ[types.Bool], Value: constantFalse}
+					out = append(out, &ast.AssignStmt{Lhs: []ast.Expr{id}, TokPos: at, Tok: token.ASSIGN, Rhs: []ast.Expr{fid}})
+				} else {
+					out = append(out, &ast.AssignStmt{Lhs: []ast.Expr{id}, TokPos: at, Tok: token.ASSIGN, Rhs: []ast.Expr{zero}})
+				}
+			}
+		}
+		return out
+	}
+	var rewriteList func(list []ast.Stmt) []ast.Stmt
+	rewriteList = func(list []ast.Stmt) []ast.Stmt {
+		var out []ast.Stmt
+		for _, s := range list {
+			switch t := s.(type) {
+			case *ast.AssignStmt:
+				if len(t.Lhs) == 1 && len(t.Rhs) == 1 {
+					if c := cands[obj(t.Lhs[0])]; c != nil && c.ok {
+						out = append(out, expand(c, litOf(t.Rhs[0]), t.Pos(), t.Tok == token.DEFINE)...)
+						continue
+					}
+				}
+			case *ast.DeclStmt:
+				if gd, ok := t.Decl.(*ast.GenDecl); ok && gd.Tok == token.VAR && len(gd.Specs) == 1 {
+					vs := gd.Specs[0].(*ast.ValueSpec)
+					if len(vs.Names) == 1 {
+						if c := cands[info.Defs[vs.Names[0]]]; c != nil && c.ok {
+							var lit *ast.CompositeLit
+							if len(vs.Values) == 1 {
+								lit = litOf(vs.Values[0])
+							}
+							out = append(out, expand(c, lit, t.Pos(), true)...)
+							continue
+						}
+					}
+				}
+			}
+			out = append(out, s)
+		}
+		return out
+	}
+	ast.Inspect(body, func(n ast.Node) bool {
+		switch t := n.(type) {
+		case *ast.BlockStmt:
+			t.List = rewriteList(t.List)
+		case *ast.CaseClause:
+			t.Body = rewriteList(t.Body)
+		case *ast.CommClause:
+			t.Body = rewriteList(t.Body)
+		}
+		return true
+	})
+	return true
+}
+
+// simplifyAddrDeref rewrites *(&x) to x and (&x).f to x.f.
+func simplifyAddrDeref(info *types.Info, body ast.Node) {
+	addrOf := func(e ast.Expr) ast.Expr {
+		if u, ok := ast.Unparen(e).(*ast.UnaryExpr); ok && u.Op == token.AND {
+			return u.X
+		}
+		return nil
+	}
+	for changed := true; changed; {
+		changed = false
+		ast.Inspect(body, func(n ast.Node) bool {
+			switch t := n.(type) {
+			case *ast.StarExpr:
+				if x := addrOf(t.X); x != nil {
+					if replaceExpr(body, t, x) {
+						changed = true
+						return false
+					}
+				}
+			case *ast.SelectorExpr:
+				if x := addrOf(t.X); x != nil && info.Selections[t] != nil {
+					t.X = x
+					changed = true
+				}
+			}
+			return !changed
+		})
+	}
 }
